@@ -368,7 +368,11 @@ package resource
 //@   replay [mask-valid] ReadMaskPanic(2)
 //@   loop 0 (k):
 //@     invariant 0 <= k && k <= len(tmp) && len(result) == k && fresh(result)
-//@     invariant forall j int :: 0 <= j && j < k ==> projected(result[j], tmp[j].body, filter)
+//@     // (projected(result[j], tmp[j].body, filter), one conjunct per invariant: as a single invariant the solver's run time was bimodal)
+//@     invariant forall j int :: 0 <= j && j < k ==> (filter.fields == nil ==> equalmsg(result[j], tmp[j].body))
+//@     invariant forall j int :: 0 <= j && j < k ==> (isnil(tmp[j].body) ==> isnil(result[j]))
+//@     invariant forall j int :: 0 <= j && j < k ==> (filter.fields != nil && !isnil(tmp[j].body) && len(filter.fields.Paths) > 0 ==> sametype(result[j], tmp[j].body) && msgval(result[j]) == filtered(msgval(tmp[j].body), filter.fields.Paths) && ref(result[j]) != ref(tmp[j].body))
+//@     invariant forall j int :: 0 <= j && j < k ==> (filter.fields != nil && !isnil(tmp[j].body) && len(filter.fields.Paths) == 0 ==> sametype(result[j], tmp[j].body) && msgval(result[j]) == emptymsg(tmp[j].body) && ref(result[j]) != ref(tmp[j].body))
 //@     invariant forall j int :: 0 <= j && j < k ==> sametype(result[j], tmp[j].body) && !isnil(result[j]) && (ref(tmp[j].body) != nil ==> ref(result[j]) != nil)
 //@
 //@ // ---- optimistic concurrency (C02): GetAndUpdate against ANY get/change/save, i.e. against any interleaving of other
